@@ -7,6 +7,7 @@ CONSTANTS
   MaxRules = 4
   FixedRules = {}
   EdbChoices <- E2Edbs
+  ExtraRules = {}
   Randomized = TRUE
   Keep <- KeepE2
 INVARIANT Emit
